@@ -155,3 +155,32 @@ func runC14(c *CheckCtx) {
 	c.assumptions["reflect.TypeOf / Type.Name modelled as the dynamic-type tag of the interface value and its declared name"] = true
 	c.assumptions["value containers reachable from the arguments are not written during the comparison (Equal_Q is pure; C02 for the rest of the system)"] = true
 }
+
+// ---------------------------------------------------------------------------
+// C13: collection builtins match the sequence/map/set model
+
+var c13Funcs = []string{
+	"lib/core.count", "lib/core.empty_Q", "lib/core.first", "lib/core.rest", "lib/core.nth", "lib/core.cons", "lib/core.vec",
+	"lib/core.get", "lib/core.contains_Q", "lib/core.copy_hash_map", "lib/core.copy_set", "lib/core.copy_vector", "lib/core.keys", "lib/core.vals",
+	"lib/core.take", "lib/core.drop", "lib/core.drop_last", "lib/core.take_last", "lib/core.rAnge", "lib/core.subvec",
+}
+
+func init() {
+	register(&Property{
+		ID: "C13", Level: "proof", Technique: "contract-based deductive verification: one functional contract per collection builtin (result kind, length, element-wise / key-wise content against the sequence/map/set model, error outside the domain), discharged on the real bodies with quantified loop invariants",
+		DesignRef: "DESIGN.md §4 C13",
+		Explain:   "functional post-conditions of the collection builtins in lib/core (kinds from README and step files)",
+		Run:       runC13,
+	})
+}
+
+func runC13(c *CheckCtx) {
+	jobs := c.jobsFor(c13Funcs, func(f *ssa.Function) *Job {
+		return &Job{Fn: f, PanicMode: "ignore", Frame: true}
+	})
+	c.runJobs(jobs, func(o *Obligation) bool {
+		return o.Kind == "post" || o.Kind == "pre" || strings.HasPrefix(o.Kind, "inv-") || o.Kind == "frame/store"
+	})
+	c.assumptions["a Go panic inside a builtin is turned into a lisp error by the binder's wrapper (C20/C04); contracts constrain normal returns only"] = true
+	c.assumptions["the binder passes arguments of the declared Go parameter types (C20)"] = true
+}
